@@ -100,8 +100,7 @@ def plan_C04(tier, seed):
     k2 = [d for d in C.k2() if d.name in ("k2_i8", "k2_u8", "k2_i8_mid", "k2_i64", "k2_u64")]
     k3 = [d for d in C.k3() if d.name in ("k3_i8_lo", "k3_u8_hi", "k3_i64_lo", "k3_i8_zero")]
     decls += k2 + k3
-    if th:
-        decls += [d for d in C.k5(False) if d.n <= 140]
+    decls += [d for d in C.k5(False) if d.name == "k5_i8_150g" or (th and d.n <= 140)]
     L = 8 if th else 4
 
     def fill(m):
@@ -115,6 +114,8 @@ def plan_C04(tier, seed):
             return ["FSm", "FSt", "FSa", "FSx1", "FSx2", "FSa1", "FSa1t"]
         if d.family in ("K1", "K4"):
             return ["FSm", "FSt", "FSa", "FSx1", "FSx2"]
+        if d.family == "K5":
+            return ["FSt"]
         return ["FSt", "FSx1"]
     return _mods(decls, None, "C04", fill, per)
 
